@@ -243,3 +243,26 @@ Proof.
   destruct Hg.
 Qed.
 Print Assumptions C14_strict_nonvacuous.
+
+(* The reporting policy is free: a validator that collects EVERY defect (all unparseable strings, every claim on an
+   already owned key) and rejects iff there is one accepts exactly the configurations [validate_strict] accepts, i.e.
+   those whose strings all parse and whose claims are pairwise distinct.  The correspondence check therefore compares
+   the verdict valid / rejected only, not which defect is named. *)
+Theorem C14_report_all_same_accept_set :
+  forall cfg, all_problems cfg = [] <-> validate_strict cfg = VOk.
+Proof. exact problems_nil_iff. Qed.
+Print Assumptions C14_report_all_same_accept_set.
+
+Theorem C14_report_all_accepts_iff :
+  forall cfg, all_problems cfg = [] <-> all_parse cfg /\ NoDup (map key (claims cfg)).
+Proof. exact problems_accepts_iff. Qed.
+Print Assumptions C14_report_all_accepts_iff.
+
+Example C14_report_all_nonvacuous :
+  length (all_problems ex_cfg) = 1%nat /\ all_problems bad_cfg = [VMalformed [97]%N 0%nat true] /\
+  all_problems [ ([97], [([49;48], [49;48;48]); ([49;50], [97;110;121])]) ]%N = [] /\
+  (* two defects, report-first names the first one *)
+  all_problems [ ([97], [([48], []); ([49;48], []); ([49;48], [97;110;121])]) ]%N
+    = [VMalformed [97]%N 0%nat true; VCollision 10 SelAny [97]%N [97]%N].
+Proof. vm_compute. repeat split; reflexivity. Qed.
+Print Assumptions C14_report_all_nonvacuous.
